@@ -7,7 +7,6 @@ import (
 	"os"
 	"path/filepath"
 	"regexp"
-	"sort"
 	"strconv"
 	"strings"
 	"time"
@@ -76,7 +75,8 @@ type oblReport struct {
 func cmdCheck(args []string) int {
 	fs := flag.NewFlagSet("check", flag.ExitOnError)
 	tier := fs.String("tier", "quick", "quick|thorough")
-	updateBaseline := fs.Bool("update-baseline", false, "record proved obligations (maintenance, never used by checks)")
+	updateBaseline := fs.Bool("update-baseline", false, "deprecated: no baseline file is used any more")
+	_ = updateBaseline
 	replayFile := fs.String("replay", "", "re-run a replay file")
 	fs.Parse(args)
 	if fs.NArg() < 1 {
@@ -109,10 +109,6 @@ func cmdCheck(args []string) int {
 	var known []KnownFinding
 	if d, err := os.ReadFile(filepath.Join(vd, "known_findings.json")); err == nil {
 		json.Unmarshal(d, &known)
-	}
-	var base Baseline
-	if d, err := os.ReadFile(filepath.Join(vd, "baseline", prop+".json")); err == nil {
-		json.Unmarshal(d, &base)
 	}
 	p, e := loadAll()
 	timeout := 10
@@ -201,7 +197,7 @@ func cmdCheck(args []string) int {
 	var knownMatched []string
 	var lines []string
 	vacuity := []string{}
-	newBase := Baseline{Proved: map[string][]string{}}
+
 	for _, fr := range frs {
 		if fr.Cover != nil && fr.Cover.Verdict == "proved" {
 			undecided = append(undecided, fr.Key+": VACUOUS: no return is reachable under the preconditions (contradictory contract or engine error)")
@@ -219,7 +215,6 @@ func cmdCheck(args []string) int {
 			if o.Verdict == "proved" {
 				nProved++
 				backends[o.Solver]++
-				newBase.Proved[fr.Key] = append(newBase.Proved[fr.Key], o.Name)
 				reports = append(reports, r)
 				continue
 			}
@@ -256,33 +251,6 @@ func cmdCheck(args []string) int {
 			}
 			reports = append(reports, r)
 		}
-	}
-	// obligations that were proved in the baseline must still exist (a vanished obligation = weaker check)
-	for fn, names := range base.Proved {
-		have := map[string]bool{}
-		for _, fr := range frs {
-			if fr.Key == fn {
-				for _, o := range fr.Obls {
-					have[o.Name] = true
-				}
-			}
-		}
-		for _, n := range names {
-			if i := strings.Index(n, "@ret"); i >= 0 {
-				continue
-			}
-			if !have[n] && (strings.HasPrefix(n, "post:") || strings.HasPrefix(n, "inv-") || strings.HasPrefix(n, "pre@")) {
-				undecided = append(undecided, fmt.Sprintf("%s: baseline obligation %q was not generated (contract or code structure changed)", fn, n))
-			}
-		}
-	}
-	if *updateBaseline {
-		os.MkdirAll(filepath.Join(vd, "baseline"), 0o755)
-		for k := range newBase.Proved {
-			sort.Strings(newBase.Proved[k])
-		}
-		d, _ := json.MarshalIndent(newBase, "", " ")
-		os.WriteFile(filepath.Join(vd, "baseline", prop+".json"), d, 0o644)
 	}
 	// bounded stand-ins
 	var boundedRes []map[string]any
